@@ -212,3 +212,25 @@ PLAN["C02"] = {
     ],
     "scope_note": "Verus: kernels unbounded. Kani: complete per size; symbolic indices for n <= 8.",
 }
+
+
+PLAN["C13"] = {
+    "level": "proof",
+    "technique": "Kani function contract / contract triples on the real Ecube methods (loop-free => complete over all 32 variables), bounded contract triples on Soes (<= 4 terms, n <= 4), exhaustive ground evaluation of Ecube::all(n <= 5)",
+    "level_text": "Every Ecube method (value, ^ and ! in all trait forms, equality, predicates, literal/gate counts, literals, from_vars) is proved against the parity definition for all terms over 32 variables and all assignments (complete, bit-precise; distinct terms are separated by an explicit assignment). Soes value / | (four forms) / conversion to Lut / is_zero / is_one are proved for every Soes of up to 4 terms over up to 4 variables (the property's own range) - bounded. Ecube::all(n) is evaluated exhaustively for n <= 5.",
+    "level_note": "Trusted: Kani/CBMC, rustc. Soes triples are bounded in the number of terms and variables (stated per harness); implies_lut bounded n <= 4. Display is property C16 (not applicable).",
+    "kani_units": ["spec_ops.rs", "c13_ecube.rs", "c13_soes.rs"],
+    "kani_filters": {"quick": ["c13q_"], "thorough": ["c13t_"]},
+    "kani_scope": {r"soes_\w+_k(\d)": "bounded(Soes: number of terms and variables fixed per harness, <= 4 terms, n <= 4)", r"implies_lut_n(\d)": "bounded(n <= 4: one harness per n)",
+                   r"from_vars": "bounded(<= 3 listed variables)", r".*": "complete(all 32 variables; loop-free)"},
+    "ground": {"units": ["g13_ecube_all.rs"], "quick": ["g13q_"], "thorough": ["g13t_"]},
+    "functions": ["Ecube::value", "Ecube::one", "Ecube::zero", "Ecube::is_zero", "Ecube::is_one", "Ecube::nth_var", "Ecube::nth_var_inv", "Ecube::from_vars",
+                  "Ecube::num_lits", "Ecube::num_gates", "Ecube::implies_lut", "Ecube::all", "BitXor for Ecube (4 impls)", "Not for Ecube (2 impls)",
+                  "Soes::value", "Soes::or + BitOr (4 impls)", "Soes::zero/one/nth_var/nth_var_inv", "Soes::is_zero", "Soes::is_one", "From<&Soes> for Lut"],
+    "assumptions": [
+        "precondition derived from the code: variable index < 32 for nth_var/nth_var_inv/from_vars",
+        "Soes: bounded to <= 4 terms over <= 4 variables; terms are built directly in an appended child module (from_cubes' scan is not exercised)",
+        "derived PartialEq on Ecube/Soes is structural (trusted)",
+    ],
+    "scope_note": "Ecube loop-free methods: complete over 32 variables. Soes: bounded (<= 4 terms, n <= 4). Ecube::all exhaustive n <= 5.",
+}
